@@ -241,6 +241,50 @@ def oracle_landscape_candidates(ck, rng):
                          inp={"T": T, "K": K}, key={"site": "landscape-multiple", "symptom": "mask-pairing" if Stub.pairing_errors else "order"},
                          oracle="landscape_candidate_uses_own_mask")
 
+    # real models: the maximum of an up-sampled multi-candidate landscape (several rotations / several templates) names the candidate and
+    # the displacement that alignment reports
+    from acryo.alignment import ZNCCAlignment, PCCAlignment, NCCAlignment
+    from scipy import ndimage as ndi
+    for it in range(2 if ck.tier == "quick" else 8):
+        up = int(rng.choice([2, 4]))
+        mfr = float(rng.choice([2.0, 2.5]))
+        tt = ndi.gaussian_filter(rng.normal(size=(12, 12, 12)), 1.2).astype(np.float32)
+        decoy = ndi.gaussian_filter(rng.normal(size=(12, 12, 12)), 1.2).astype(np.float32)
+        dd = np.array([float(rng.integers(-2, 3)), float(rng.integers(-1, 2)), float(np.floor(mfr * up) / up) * float(rng.choice([-1, 1]))])
+        F_ = np.fft.fftn(tt.astype(np.float64))
+        ph_ = 1.0
+        for ax_ in range(3):
+            shp_ = [1, 1, 1]; shp_[ax_] = 12
+            ph_ = ph_ * np.exp(-2j * np.pi * np.fft.fftfreq(12) * dd[ax_]).reshape(shp_)
+        xu = np.fft.ifftn(F_ * ph_).real.astype(np.float32)
+        for Mu in (ZNCCAlignment, NCCAlignment, PCCAlignment):
+            for label, mu in (("3 rotations", Mu(tt, rotations=((20, 20), (0, 0), (0, 0)))), ("2 templates", Mu([decoy, tt])),
+                              ("2 templates x 3 rotations", Mu([decoy, tt], rotations=((0, 0), (0, 0), (20, 20))))):
+                ck.oracle_count("upsampled_multi_landscape", 1, 1)
+                try:
+                    lu = np.asarray(mu.landscape(xu, (mfr, mfr, mfr), upsample=up))
+                    ru = mu.align(xu, (mfr, mfr, mfr))
+                    ncand = mu.quaternions.shape[0] * (2 if "templates" in label else 1)
+                    idx = np.unravel_index(np.argmax(lu), lu.shape)
+                    amu = (np.array(idx[1:]) - (np.array(lu.shape[1:]) // 2)) / up
+                    nt = 2 if "templates" in label else 1
+                    want_q = mu.quaternions[idx[0] // nt]
+                    bad = []
+                    if lu.ndim != 4 or lu.shape[0] != ncand:
+                        bad.append(f"landscape shape {lu.shape} for {ncand} candidates")
+                    elif np.abs(amu - ru.shift).max() > 0.5 / up + 0.15:
+                        bad.append(f"maximum of the x{up} landscape at {amu.tolist()} but align reports {np.round(ru.shift, 2).tolist()}")
+                    elif not (np.allclose(want_q, ru.quat, atol=1e-6) or np.allclose(want_q, -np.asarray(ru.quat), atol=1e-6)) or int(idx[0]) != int(ru.label):
+                        bad.append(f"maximum lies in candidate {idx[0]} but align reports label {ru.label}, rotation {np.round(ru.quat, 3).tolist()}")
+                    elif np.abs(ru.shift - dd).max() > 0.3:
+                        bad.append(f"align reports {np.round(ru.shift, 2).tolist()} for a copy displaced by {dd.tolist()}")
+                except Exception as e:  # noqa
+                    bad = [f"raised {type(e).__name__}: {e}"]
+                for b_ in bad:
+                    ck.violation(what=f"{Mu.__name__} with {label}, upsample={up}, max_shifts={mfr}: {b_}", inp={"model": Mu.__name__, "candidates": label, "upsample": up,
+                                 "max_shifts": mfr, "displacement": dd.tolist(), "seed": ck.seed, "iteration": it},
+                                 key={"site": "landscape-multiple-upsampled", "model": Mu.__name__}, oracle="upsampled_multi_landscape")
+
 
 def run(ck: common.Check):
     ck.design_ref = "DESIGN.md §6 C07"
